@@ -28,4 +28,26 @@ def regRank (num : String → Nat) (gd : List DEntity) (rank : String → Nat) (
   | some de => rank de.name
   | none => 0
 
+/-- is the attribute's domain an (unnamed) aggregate -/
+def drefAggr : DRef → Bool
+  | .aggr .. => true
+  | _ => false
+
+/-- `x` of a registered name `sup.x` (a redeclared attribute), the name itself otherwise -/
+def baseAttrName (n : String) : String := ((n.splitOn ".").getLast?).getD n
+
+/-- **the resolver's dictionary read off the registry the generated schema init code builds** (C02's `DEntity`): entity and supertype
+    names through the numbering `num`; the explicit attributes (kind `E`) with their aggregate flag; the names of the attributes the
+    entity redeclares (kind `R`, registered as `sup.x`); the inverse attributes with inverted entity and inverted attribute
+    (`inverted_entity_id_`, `inverted_attr_id_`), keyed by `entity.name` -/
+def ofGenEntity (num : String → Nat) (de : DEntity) : EntityD :=
+  { name := num de.name,
+    sups := de.supers.map num,
+    attrs := (de.attrs.filter (fun a => a.kind == .E)).map (fun a => (num a.name, drefAggr a.type)),
+    redecl := (de.attrs.filter (fun a => a.kind == .R)).map (fun a => num (baseAttrName a.name)),
+    invs := de.invs.map (fun i =>
+      { key := num (de.name ++ "." ++ i.name), aggr := drefAggr i.type, over := num i.invEntity, attrName := num i.invAttr }) }
+
+def ofGen (num : String → Nat) (gd : List DEntity) : Dict := gd.map (ofGenEntity num)
+
 end StepModel.LazyRefs
